@@ -777,6 +777,8 @@ class Container:
 
         if not isinstance(source_container, Container):
             raise TypeError("Invalid source type.")
+        if source_container is self:
+            raise ValueError("Source and destination must be different containers.")
         quantity_to_transfer, unit = Unit.parse_quantity(quantity)
 
         def ratio_of(requested, total):
